@@ -64,12 +64,13 @@ format_timestamp = dict(
 __CPROVER_requires(__CPROVER_is_fresh(self, sizeof(*self)) && self->_time_zone <= TZ_GmtTime && timestamp >= 0 && timestamp < (((time_t)1) << 40) && g_anchor_ts >= 0 && self->_next_recalculation_timestamp < (((time_t)1) << 40) && CI(self))
 __CPROVER_requires(!g_patched && !g_fallback && !g_repopulated)
 __CPROVER_assigns(self->_cached_timestamp, self->_cached_seconds, self->_next_recalculation_timestamp, g_anchor_ts, g_anchor_sod, g_fallback, g_repopulated, g_patched, g_put_H, g_put_M, g_put_S, g_put_I, g_put_l, g_put_k, g_put_s, g_clears)
-__CPROVER_ensures(timestamp < OLD(self->_cached_timestamp) ==> (g_fallback && !g_patched && !g_repopulated && self->_cached_timestamp == OLD(self->_cached_timestamp) && self->_cached_seconds == OLD(self->_cached_seconds) && self->_next_recalculation_timestamp == OLD(self->_next_recalculation_timestamp))) /*@ C13 "a timestamp going backwards is rendered by strftime directly and leaves the cache untouched" */
-__CPROVER_ensures(timestamp >= OLD(self->_cached_timestamp) ==> (CI(self) && !g_fallback)) /*@ C13 "otherwise the cache invariant is re-established (cached seconds = second-of-day of the cached instant, no midnight before the next recalculation)" */
-__CPROVER_ensures((timestamp >= OLD(self->_cached_timestamp) && (self->_cached_indexes.g_nonempty || g_repopulated)) ==> self->_cached_timestamp == timestamp) /*@ C13 "the cache describes the requested instant afterwards: a later timestamp never shows stale fields" */
+__CPROVER_ensures(CI(self)) /*@ C13 "the cache invariant holds after every call (cached seconds = second-of-day of the cached instant, no midnight before the next recalculation point)" */
+__CPROVER_ensures(g_fallback ==> (!g_patched && !g_repopulated && self->_cached_timestamp == OLD(self->_cached_timestamp) && self->_cached_seconds == OLD(self->_cached_seconds) && self->_next_recalculation_timestamp == OLD(self->_next_recalculation_timestamp) && g_anchor_ts == OLD(g_anchor_ts))) /*@ C13 "rendering by strftime directly leaves the cache untouched" */
+__CPROVER_ensures(!g_fallback ==> (g_anchor_ts <= timestamp && timestamp < self->_next_recalculation_timestamp)) /*@ C13 "a result served from the cache is for an instant inside the cached period (a timestamp going backwards past it is never served from the cache)" */
+__CPROVER_ensures((!g_fallback && (self->_cached_indexes.g_nonempty || g_repopulated)) ==> self->_cached_timestamp == timestamp) /*@ C13 "the cache describes the requested instant afterwards: a later timestamp never shows stale fields" */
 __CPROVER_ensures(g_patched ==> (g_put_H == SOD(timestamp) / 3600 && g_put_M == (SOD(timestamp) % 3600) / 60 && g_put_S == SOD(timestamp) % 60 && g_put_k == g_put_H && g_put_s == timestamp)) /*@ C13 "rewritten hour / minute / second digits are those of the requested instant" */
 __CPROVER_ensures(g_patched ==> (g_put_I == ((SOD(timestamp) / 3600) % 12 == 0 ? 12 : (SOD(timestamp) / 3600) % 12) && g_put_l == g_put_I)) /*@ C13 "the 12-hour value is 12 for hours 0 and 12, hour mod 12 otherwise" */
-__CPROVER_ensures((timestamp >= OLD(self->_cached_timestamp) && self->_cached_indexes.g_nonempty && timestamp != OLD(self->_cached_timestamp) && !g_repopulated) ==> g_patched) /*@ C13 "a different instant within the cached period always gets its digits rewritten" */
+__CPROVER_ensures((!g_fallback && self->_cached_indexes.g_nonempty && timestamp != OLD(self->_cached_timestamp) && !g_repopulated) ==> g_patched) /*@ C13 "a different instant within the cached period always gets its digits rewritten" */
 ''')],
     harness='  SFT* s; time_t t; SFT_format_timestamp(s, t);',
     dropped=['the strings (_pre_formatted_ts etc.): only WHICH numbers are written where is kept; fmt width formatting trusted', 'std::string const& return value'],
